@@ -218,9 +218,15 @@ def gen_c15(seed):
         fault = None
     else:
         fault = GC.gen_fault(r, seed, 0.4)
-    return {"format": 1, "property": "C15", "engine": "samplersim", "kind": "adaptive", "cls": cls, "seed": seed,
+    case = {"format": 1, "property": "C15", "engine": "samplersim", "kind": "adaptive", "cls": cls, "seed": seed,
             "rng": H(seed, "rng"), "dom": dom, "n": n, "ratio": r.choice((0.0, 0.25, 0.5, 0.75, 1.0)),
             "history": hist, "fault": fault}
+    rf = rnd(seed, "adaptive-filter")
+    if rf.random() < 0.3 and not G.is_boundary(dom):
+        f = GC.gen_filter(rf, rng, dom, [{}])
+        if f:
+            case["filter"] = f
+    return case
 
 
 def _is_random(node):
